@@ -3,6 +3,7 @@ package main
 import (
 	"fmt"
 	"math/rand"
+	"os"
 	"runtime"
 	"runtime/debug"
 	"sort"
@@ -242,16 +243,33 @@ func (s *Sim) runPaused(a Op, pause func(c world.Call, after bool) bool, next fu
 	}
 	s.compound = true
 	s.faultTag = "interleaved-" + a.Kind
-	defer func() { s.compound = false; s.faultTag = ""; s.W.In.Yield = nil }()
+	defer func() {
+		s.compound = false
+		s.faultTag = ""
+		s.W.In.Yield = nil
+		s.W.In.IPAMYield = nil
+		s.pauseIPAM = nil
+	}()
 	paused, resume, doneA := make(chan struct{}), make(chan struct{}), make(chan struct{})
 	var once sync.Once
 	var aGo int64
 	s.W.In.Yield = func(c world.Call, aft bool) {
-		if goid() != atomic.LoadInt64(&aGo) {
+		if pause == nil || goid() != atomic.LoadInt64(&aGo) {
 			return
 		}
 		if pause(c, aft) {
 			once.Do(func() { close(paused); <-resume })
+		}
+	}
+	if pi := s.pauseIPAM; pi != nil {
+		// pause between two IPAM calls of the operation (no API-server call in between)
+		s.W.In.IPAMYield = func(method string, aft bool) {
+			if goid() != atomic.LoadInt64(&aGo) {
+				return
+			}
+			if pi(method, aft) {
+				once.Do(func() { close(paused); <-resume })
+			}
 		}
 	}
 	s.W.BeginOp(nil, nil)
@@ -431,6 +449,104 @@ func (s *Sim) interleaveTemplate(kind int) {
 		for len(s.W.Releases) > 0 && s.ownAlarms() == 0 {
 			do(Op{Kind: "release", Idx: 0})
 		}
+		do(Op{Kind: "resync"})
+	}
+}
+
+// interleaveDpUnbinds is the third seeded overlap: an immutable deployment holding 3 IPs is scaled to 2 and two of its
+// pods vanish; the unbind of the first is paused right after it has counted the app's IPs (IPAM call ByPrefix), the
+// unbind of the second runs meanwhile, then the first resumes. Only one of the two IPs may be released.
+func (s *Sim) interleaveDpUnbinds() {
+	var wl *Workload
+	var wi int
+	for i, w := range s.WLs {
+		if w.Kind == KDp && w.Exists && w.Pool == "" && w.effPolicy() == 1 && len(rangeLists(w.Ranges)) == 0 {
+			wl, wi = w, i
+			break
+		}
+	}
+	if wl == nil {
+		return
+	}
+	do := func(o Op) { s.exec(o, nil, nil) }
+	deliverAll := func() {
+		for _, r := range []string{"sts", "dp", "pools", "pods"} {
+			for s.W.Pending(r) > 0 && s.ownAlarms() == 0 {
+				do(Op{Kind: "deliver", Res: r})
+			}
+		}
+	}
+	drain := func() {
+		deliverAll()
+		for len(s.W.Releases) > 0 && s.ownAlarms() == 0 {
+			do(Op{Kind: "release", Idx: 0})
+		}
+	}
+	drain()
+	do(Op{Kind: "scale", WL: wi, Idx: 3})
+	deliverAll()
+	bound := func() []*corev1.Pod {
+		var out []*corev1.Pod
+		for _, p := range s.podsOf(wl) {
+			if world.Live(p) && p.Spec.NodeName != "" {
+				if b, ok := s.told()[string(p.UID)]; ok && len(b.IPs) > 0 {
+					out = append(out, p)
+				}
+			}
+		}
+		return out
+	}
+	for guard := 0; guard < 8 && len(bound()) < 3 && s.ownAlarms() == 0; guard++ {
+		for _, p := range s.podsOf(wl) {
+			if world.Live(p) && p.Spec.NodeName == "" {
+				do(Op{Kind: "filter", Pod: string(p.UID)})
+				if r := s.Pods[string(p.UID)]; r != nil && r.FilterOK && len(r.Offered) > 0 {
+					do(Op{Kind: "bind", Pod: string(p.UID), Node: r.Offered[0]})
+				}
+			}
+		}
+		if len(bound()) < 3 {
+			do(Op{Kind: "create", WL: wi})
+			deliverAll()
+		}
+	}
+	bs := bound()
+	if len(bs) < 3 || s.ownAlarms() > 0 {
+		return
+	}
+	drain()
+	do(Op{Kind: "scale", WL: wi, Idx: 2})
+	deliverAll()
+	do(Op{Kind: "delete", Pod: string(bs[0].UID)})
+	do(Op{Kind: "delete", Pod: string(bs[1].UID)})
+	deliverAll()
+	if len(s.W.Releases) < 2 || s.ownAlarms() > 0 {
+		return
+	}
+	s.Counts["interleave_template_two_unbinds_of_scaled_down_deployment"]++
+	ran := false
+	s.pauseIPAM = func(method string, after bool) bool { return after && method == "ByPrefix" }
+	s.runPaused(Op{Kind: "release", Idx: 0}, nil,
+		func() (Op, bool) {
+			if ran || len(s.W.Releases) == 0 {
+				return Op{}, false
+			}
+			ran = true
+			return Op{Kind: "release", Idx: 0}, true
+		})
+	if os.Getenv("VERIF_DEBUG_TPL") != "" {
+		for _, st := range s.Steps[len(s.Steps)-12:] {
+			fmt.Fprintf(os.Stderr, "TPL %+v\n", st)
+		}
+		for ip, e := range s.W.Dump() {
+			if e.Key != "" {
+				fmt.Fprintf(os.Stderr, "TPL dump %s %q pol=%d\n", ip, e.Key, e.Policy)
+			}
+		}
+		fmt.Fprintf(os.Stderr, "TPL alarms %v\n", s.Alarms)
+	}
+	if s.ownAlarms() == 0 {
+		drain()
 		do(Op{Kind: "resync"})
 	}
 }
